@@ -22,3 +22,138 @@ def line_through(x1, y1, x2, y2, b, c):
 
 def strictly_ascending(xs, n):
     return forall(0, n - 1, lambda i: xs[i] < xs[i + 1])
+
+
+# ---------------------------------------------------------------------------------------
+# C06: SI definitions, written from the property statement (exact inch, pound, grain, nautical
+# mile, standard gravity, conventional mmHg; affine temperature scales; tangent-based
+# inch-per-100-yd and cm-per-100-m), independent of the factor chains in unit.py.
+from fractions import Fraction  # noqa: E402
+from py_ballisticcalc.unit import Unit  # noqa: E402
+
+PI = Fraction(math.pi)          # the binary64 value the package itself uses for pi
+INCH = Fraction(254, 10000)     # m, exact
+POUND = Fraction(45359237, 100000000)   # kg, exact
+G_N = Fraction(980665, 100000)  # m/s^2, standard gravity
+MMHG = Fraction(133322387415, 1000000000)  # Pa, conventional millimetre of mercury
+NMI = Fraction(1852)            # m
+
+SI_FACTOR = {
+    # distance: metres
+    Unit.Inch: INCH, Unit.Foot: 12 * INCH, Unit.Yard: 36 * INCH, Unit.Mile: 63360 * INCH, Unit.NauticalMile: NMI,
+    Unit.Millimeter: Fraction(1, 1000), Unit.Centimeter: Fraction(1, 100), Unit.Meter: Fraction(1),
+    Unit.Kilometer: Fraction(1000), Unit.Line: INCH / 10,
+    # pressure: pascal
+    Unit.MmHg: MMHG, Unit.InHg: MMHG * Fraction(254, 10), Unit.Bar: Fraction(100000), Unit.hPa: Fraction(100),
+    Unit.PSI: POUND * G_N / (INCH * INCH),
+    # weight: kilogram (newton = weight of that mass under standard gravity)
+    Unit.Grain: POUND / 7000, Unit.Ounce: POUND / 16, Unit.Gram: Fraction(1, 1000), Unit.Pound: POUND,
+    Unit.Kilogram: Fraction(1), Unit.Newton: 1 / G_N,
+    # velocity: m/s
+    Unit.MPS: Fraction(1), Unit.KMH: Fraction(10, 36), Unit.FPS: 12 * INCH, Unit.MPH: 63360 * INCH / 3600,
+    Unit.KT: NMI / 3600,
+    # energy: joule
+    Unit.FootPound: 12 * INCH * POUND * G_N, Unit.Joule: Fraction(1),
+    # angle: radian (linear units)
+    Unit.Radian: Fraction(1), Unit.Degree: PI / 180, Unit.MOA: PI / 10800, Unit.Mil: 2 * PI / 6400,
+    Unit.MRad: Fraction(1, 1000), Unit.Thousandth: 2 * PI / 6000, Unit.OClock: 2 * PI / 12,
+}
+BASE_UNIT = {'Distance': Unit.Inch, 'Pressure': Unit.MmHg, 'Weight': Unit.Grain, 'Velocity': Unit.MPS,
+             'Energy': Unit.FootPound, 'Angular': Unit.Radian, 'Temperature': Unit.Fahrenheit}
+TANGENT_RUN = {Unit.InchesPer100Yd: Fraction(3600), Unit.CmPer100m: Fraction(10000)}   # 100 yd in inch, 100 m in cm
+DIM_UNITS = {
+    'Distance': (Unit.Inch, Unit.Foot, Unit.Yard, Unit.Mile, Unit.NauticalMile, Unit.Millimeter, Unit.Centimeter,
+                 Unit.Meter, Unit.Kilometer, Unit.Line),
+    'Pressure': (Unit.MmHg, Unit.InHg, Unit.Bar, Unit.hPa, Unit.PSI),
+    'Weight': (Unit.Grain, Unit.Ounce, Unit.Gram, Unit.Pound, Unit.Kilogram, Unit.Newton),
+    'Velocity': (Unit.MPS, Unit.KMH, Unit.FPS, Unit.MPH, Unit.KT),
+    'Energy': (Unit.FootPound, Unit.Joule),
+    'Angular': (Unit.Radian, Unit.Degree, Unit.MOA, Unit.Mil, Unit.MRad, Unit.Thousandth, Unit.InchesPer100Yd,
+                Unit.CmPer100m, Unit.OClock),
+    'Temperature': (Unit.Fahrenheit, Unit.Celsius, Unit.Kelvin, Unit.Rankin),
+}
+ZERO_C = Fraction(27315, 100)      # K
+ZERO_F = Fraction(45967, 100)      # degR
+
+
+def unit_in_dimension(u, dim):
+    return u in DIM_UNITS[dim]
+
+
+def kelvin_of(v, u):
+    """absolute temperature (K) of a reading v on scale u"""
+    if u == Unit.Kelvin:
+        return v
+    if u == Unit.Celsius:
+        return v + ZERO_C
+    if u == Unit.Rankin:
+        return v * 5 / 9
+    return (v + ZERO_F) * 5 / 9
+
+
+def reading_of(k, u):
+    """reading on scale u of the absolute temperature k (K)"""
+    if u == Unit.Kelvin:
+        return k
+    if u == Unit.Celsius:
+        return k - ZERO_C
+    if u == Unit.Rankin:
+        return k * 9 / 5
+    return k * 9 / 5 - ZERO_F
+
+
+def to_base_ok(dim, v, u, r):
+    """r is the magnitude, in the dimension's base unit, of v expressed in unit u - to 1e-6 relative
+    (temperature scales are affine, so 'relative' is taken relative to the absolute temperature,
+    floored at 1 K: at exactly 0 K the binary64 literal 273.15 already differs from the decimal
+    one by 1e-14, which no purely relative bound admits; tangent units: exact defining relation)"""
+    if dim == 'Temperature':
+        k = kelvin_of(v, u)
+        return abs(r - reading_of(k, Unit.Fahrenheit)) <= Fraction(1, 1000000) * max(abs(k), 1) * 9 / 5
+    if u in TANGENT_RUN:
+        return -PI / 2 - Fraction(1, 1000) < r < PI / 2 + Fraction(1, 1000) and eq(math.tan(r) * TANGENT_RUN[u], v)
+    return approx(r, v * SI_FACTOR[u] / SI_FACTOR[BASE_UNIT[dim]], Fraction(1, 1000000))
+
+
+def from_base_ok(dim, r, u, v):
+    """v is the reading in unit u of the base-unit magnitude r - to 1e-6 relative"""
+    if dim == 'Temperature':
+        k = kelvin_of(r, Unit.Fahrenheit)
+        return abs(v - reading_of(k, u)) <= Fraction(1, 1000000) * max(abs(k), 1) * (
+            1 if u in (Unit.Kelvin, Unit.Celsius) else Fraction(9, 5))
+    if u in TANGENT_RUN:
+        return eq(v, math.tan(r) * TANGENT_RUN[u])
+    return approx(v, r * SI_FACTOR[BASE_UNIT[dim]] / SI_FACTOR[u], Fraction(1, 1000000))
+
+
+def angle_in_one_turn(v, u):
+    """the statement's 'angles within one turn' for a reading v in angular unit u"""
+    if u in TANGENT_RUN:
+        return True
+    return abs(v) * SI_FACTOR[u] <= 2 * PI
+
+
+def raw_angle_in_domain(r, u):
+    if u in TANGENT_RUN:
+        return -PI / 2 < r < PI / 2
+    return abs(r) <= 2 * PI
+
+
+def to_then_from(q, v, u):
+    """lemma harness: unit -> base -> unit"""
+    return q.from_raw(q.to_raw(v, u), u)
+
+
+def from_then_to(q, r, u):
+    """lemma harness: base -> unit -> base"""
+    return q.to_raw(q.from_raw(r, u), u)
+
+
+def a_to_b_to_c(q, v, a, b, c):
+    """lemma harness (transitivity): A -> B -> C"""
+    vb = q.from_raw(q.to_raw(v, a), b)
+    return q.from_raw(q.to_raw(vb, b), c)
+
+
+def a_to_c(q, v, a, c):
+    return q.from_raw(q.to_raw(v, a), c)
